@@ -204,14 +204,17 @@ def run_batch(prop, tier, master, n_ff, n_f, workers, deadline, strata=()):
     return total
 
 
-def write_replay(prop, v, ops, digest=None):
+def write_replay(prop, v, ops, digest=None, cross=False):
     rdir = os.environ.get("VERIF_REPLAY_DIR", os.path.join(HERE, "replays"))
     os.makedirs(rdir, exist_ok=True)
-    tag = v["faults"][6:] + "-" if isinstance(v["faults"], str) else ""
+    tag = "xproc-" if v["faults"] == "xproc" else \
+        (v["faults"][6:] + "-" if isinstance(v["faults"], str) else "")
     path = os.path.join(rdir, "%s-%s%d.json" % (prop, tag, v["seed"]))
     doc = {"format": 1, "property": prop, "seed": v["seed"], "faults": v["faults"],
            "config": v.get("swarm"), "ops": ops, "violation": v["violation"],
            "vclass": v["vclass"], "digest": digest}
+    if cross:
+        doc["cross_interpreter"] = True
     with open(path, "w") as f:
         json.dump(doc, f, indent=1, default=str)
     return path
@@ -239,6 +242,134 @@ def fresh_replay_ok(path):
     return p.returncode == 1 and "VIOLATION" in p.stdout and "digest-match=yes" in p.stdout
 
 
+# --------------------------------------------------------------------------
+# C15 / I7 across interpreter instances: the same ops executed in fresh
+# interpreters under different hash seeds must produce the same bytes
+# --------------------------------------------------------------------------
+
+XHASHSEEDS = ("0", "1", "2", "3")
+
+
+def _event_digests(prop, ops):
+    r = R.replay(prop, ops)
+    return [e[2][:16] for e in r["events"]]
+
+
+def _xrun_ops_in_fresh(prop, ops_list, hashseed):
+    """Execute op lists in one fresh interpreter; returns their per-event digests."""
+    import tempfile
+    with tempfile.NamedTemporaryFile("w", suffix=".json", delete=False, dir="/tmp") as f:
+        json.dump({"property": prop, "ops_list": ops_list}, f)
+        path = f.name
+    try:
+        env = dict(os.environ, PYTHONHASHSEED=hashseed)
+        p = subprocess.run([sys.executable, os.path.join(HERE, "check.py"), "--xrun", path],
+                           capture_output=True, text=True, env=env, timeout=1800)
+        if p.returncode != 0:
+            raise RuntimeError("xrun failed: " + p.stderr[-1500:])
+        return json.loads(p.stdout.strip().splitlines()[-1])
+    finally:
+        try:
+            os.unlink(path)
+        except OSError:
+            pass
+
+
+def cross_interpreter_check(prop, master, n, tot):
+    """n random + n stratified runs of this property: generated and executed here,
+    then their recorded op lists re-executed in two fresh interpreters with
+    different hash seeds; every event digest (bytes of everything an op wrote or
+    created) must agree.  Returns a list of violation records."""
+    runs = []
+    for i in range(n):
+        runs.append(R.simulate(prop, R.run_seed_for(master + 7, prop, i, i % 2), "quick", bool(i % 2)))
+    fams = S.families(prop, "thorough")
+    for fam, space, _ in fams:
+        # (the tail of the `terms` index space holds the three-term lists, where the
+        # order of summation can show in the last bit)
+        idxs = S.sample_indices(master + 7, fam, space, max(1, n // 2))
+        if fam == "terms":
+            idxs = [space - 1 - (i % (space // 2)) for i in idxs] + idxs[:n // 4]
+        for idx in idxs:
+            runs.append(R.simulate_strat(prop, fam, idx))
+    runs = [r for r in runs if not r["violation"]]
+    ops_list = [r["ops"] for r in runs]
+    here = [[e[2][:16] for e in r["events"]] for r in runs]
+    others = [_xrun_ops_in_fresh(prop, ops_list, hs) for hs in XHASHSEEDS]
+    tot["oracle"]["I7-cross-interpreter"] += len(runs) * len(XHASHSEEDS)
+    out = []
+    seen = set()
+    for k, r in enumerate(runs):
+        for other in others:
+            if other[k] == here[k]:
+                continue
+            j = next((j for j in range(min(len(here[k]), len(other[k])))
+                      if here[k][j] != other[k][j]), min(len(here[k]), len(other[k])))
+            op = r["ops"][min(j, len(r["ops"]) - 1)]
+            sub = op.get("a", {}).get("fn") or op.get("a", {}).get("op") or ""
+            sig = "cross-interpreter/%s%s" % (op["k"], ":" + sub if sub else "")
+            if sig in seen:
+                break
+            seen.add(sig)
+            out.append({"seed": int(r["seed"] or 0), "i": k, "faults": "xproc",
+                        "vclass": ["C15", "I7", sig], "ops": r["ops"][:j + 1], "swarm": r["swarm"],
+                        "violation": {"property": "C15", "invariant": "I7", "signature": sig,
+                                      "detail": {"step": j, "op": op,
+                                                 "what": "event digests differ between interpreter "
+                                                         "instances (PYTHONHASHSEED %s)"
+                                                         % "/".join(XHASHSEEDS)}}})
+            break
+    return out
+
+
+def _xdiffer(prop, ops):
+    res = [_xrun_ops_in_fresh(prop, [ops], hs)[0] for hs in XHASHSEEDS]
+    return any(x != res[0] for x in res[1:])
+
+
+def cross_shrink(prop, ops, budget=40):
+    """ddmin over the op list with 'digests differ between interpreters' as the
+    predicate (each evaluation starts len(XHASHSEEDS) fresh interpreters)."""
+    ops = list(ops)
+    n = 2
+    while len(ops) >= 2 and budget > 0:
+        chunk = max(1, len(ops) // n)
+        reduced = False
+        i = 0
+        while i < len(ops) and budget > 0:
+            cand = ops[:i] + ops[i + chunk:]
+            budget -= 1
+            if cand and _xdiffer(prop, cand):
+                ops = cand
+                n = max(n - 1, 2)
+                reduced = True
+            else:
+                i += chunk
+        if not reduced:
+            if chunk == 1:
+                break
+            n = min(len(ops), n * 2)
+    return ops
+
+
+def cross_replay(doc, path):
+    """Replay of a cross-interpreter violation: the recorded ops in two fresh
+    interpreters with different hash seeds; VIOLATION iff their digests differ."""
+    prop = doc["property"]
+    res = [_xrun_ops_in_fresh(prop, [doc["ops"]], hs)[0] for hs in XHASHSEEDS]
+    print("replay %s: %d ops in fresh interpreters with PYTHONHASHSEED=%s"
+          % (path, len(doc["ops"]), "/".join(XHASHSEEDS)))
+    a = res[0]
+    b = next((x for x in res[1:] if x != a), a)
+    if a != b:
+        j = next((j for j in range(min(len(a), len(b))) if a[j] != b[j]), -1)
+        print("event digests differ at op %d" % j)
+        print("VIOLATION property=%s replay=%s" % (prop, path))
+        return 1
+    print("replay did not reproduce a violation")
+    return 0
+
+
 def finding_matches(f, vclass):
     return (f.get("property") == vclass[0] and f.get("invariant") == vclass[1]
             and f.get("signature") == vclass[2])
@@ -259,6 +390,12 @@ def check_property(prop, tier, master, n_ff, n_f, workers, strat_scale=1.0):
           flush=True)
     tot = run_batch(prop, tier, master, n_ff, n_f, workers, deadline, strata)
     tot["strata"] = strata
+    xviol = []
+    if prop == "C15" and not STOP_FIRST:
+        try:
+            xviol = cross_interpreter_check(prop, master, 16 if tier == "quick" else 200, tot)
+        except Exception:
+            tot["errors"].append({"tb": "cross-interpreter check: " + traceback.format_exc()})
     wall_runs = time.time() - t0
     # ---- violations: one report per distinct class, smallest run index first
     classes = {}
@@ -266,6 +403,20 @@ def check_property(prop, tier, master, n_ff, n_f, workers, strat_scale=1.0):
         classes.setdefault(tuple(v["vclass"]), v)
     nviol = 0
     replays = []
+    for v in xviol:
+        n0 = len(v["ops"])
+        try:
+            v["ops"] = cross_shrink(prop, v["ops"])
+        except Exception:
+            pass
+        print("cross-interpreter violation minimised %d -> %d ops" % (n0, len(v["ops"])))
+        path = write_replay(prop, v, v["ops"], None, cross=True)
+        nviol += 1
+        replays.append({"class": v["vclass"], "replay": path, "ops": len(v["ops"]),
+                        "original_ops": len(v["ops"]), "seed": v["seed"], "runs_hit": 1})
+        print("violation class %s: event digests differ between interpreter instances"
+              % "/".join(v["vclass"]))
+        print("VIOLATION property=%s replay=%s" % (prop, path), flush=True)
     for vclass, v in list(classes.items())[:6]:
         ops = shrink(prop, v["ops"], vclass, 300 if tier == "quick" else 800)
         if ops is None:
@@ -442,6 +593,7 @@ def main():
     ap.add_argument("--replay")
     ap.add_argument("--selftest")
     ap.add_argument("--digests")
+    ap.add_argument("--xrun", help="internal: execute the op lists of a JSON file, print event digests")
     ap.add_argument("--n", type=int, default=16)
     ap.add_argument("--no-evidence", action="store_true",
                     help="do not rewrite evidence/<id>.json (used by tools/mutants.py)")
@@ -461,6 +613,12 @@ def main():
         print("setup ok: numpy %s scipy %s pyfvtool %s from %s"
               % (numpy.__version__, scipy.__version__, pf.__version__, A.src_dir()))
         return 0
+    if a.xrun:
+        A.load()
+        with open(a.xrun) as f:
+            doc = json.load(f)
+        print(json.dumps([_event_digests(doc["property"], ops) for ops in doc["ops_list"]]))
+        return 0
     if a.digests:
         A.load()
         for d in _digest_list(a.digests, a.n):
@@ -471,6 +629,10 @@ def main():
     if a.replay:
         A.load()
         known = load_known()
+        with open(a.replay) as f:
+            doc0 = json.load(f)
+        if doc0.get("cross_interpreter"):
+            return cross_replay(doc0, a.replay)
         prop, r, same_cls = replay_file(a.replay)
         if r["violation"] and same_cls:
             print("VIOLATION property=%s replay=%s" % (prop, a.replay))
